@@ -194,4 +194,49 @@ def steps (cfg : Cfg F) (s : Scheme F) (dt : F) : Nat → List PInt → Option (
     | some st' => steps cfg s dt n st'
     | none => none
 
+/-! ### the recalculation flag  (integrator_janus.c:172-181, 254-258)
+
+    `reb_integrator_janus_part1` re-derives the grid state from the particle doubles exactly
+    when the particle count changed (`N_allocated != N`, in particular on the first step) or when
+    the user set `recalculate_integer_coordinates_this_timestep` after modifying particles, and
+    clears the flag.  Nothing else in the library sets it: in particular a step never does, and
+    callbacks being installed must not (the check traces the flag on the real code and the
+    translator lists every assignment to it in src/). -/
+
+structure JState where
+  pInt : List PInt
+  /-- `ri_janus.N_allocated` -/
+  nAllocated : Nat
+  /-- `ri_janus.recalculate_integer_coordinates_this_timestep` -/
+  recalc : Bool
+deriving Repr, DecidableEq
+
+/-- the head of part1: `particles` are the doubles in `r->particles` at the start of the step -/
+def part1Sync (sp sv : F) (particles : List (PDbl F)) (js : JState) : Option JState :=
+  if js.recalc || js.nAllocated != particles.length then
+    match toInt sp sv particles with
+    | some p => some ⟨p, particles.length, false⟩
+    | none => none
+  else some js
+
+/-- one `reb_simulation_step` with JANUS as seen from outside: grid state, flag, and the particle
+    doubles left by `reb_integrator_janus_synchronize` (ALL N particles are converted) -/
+def stepFull (cfg : Cfg F) (s : Scheme F) (dt : F) (particles : List (PDbl F)) (js : JState) :
+    Option (JState × List (PDbl F)) :=
+  match part1Sync cfg.scalePos cfg.scaleVel particles js with
+  | none => none
+  | some js1 =>
+    match step cfg s dt js1.pInt with
+    | none => none
+    | some st' => some ({ js1 with pInt := st' }, toDouble cfg.scalePos cfg.scaleVel st')
+
+/-- `n` steps without user interference: the particles of each step are the doubles the previous
+    step left -/
+def stepsFull (cfg : Cfg F) (s : Scheme F) (dt : F) : Nat → JState → Option JState
+  | 0, js => some js
+  | n + 1, js =>
+    match stepFull cfg s dt (toDouble cfg.scalePos cfg.scaleVel js.pInt) js with
+    | some (js', _) => stepsFull cfg s dt n js'
+    | none => none
+
 end RV.Janus
